@@ -82,3 +82,73 @@ def follow(p0, p1, grad, integrand=None, rtol=1e-9):
     if miss > 1e-3 * max(chord, 1e-3) + 1e-5:
         return np.nan, np.nan      # p1 is not on the surface followed (caller treats as 'no oracle value')
     return float(sol.t_events[0][0]), float(yend[2])
+
+
+# ---------------------------------------------------------------------------------------------
+# polygon oracle (C11): independent of hypnotoad.utils.polygons / find_intersections
+def poly_inside(poly, R, Z):
+    """even-odd rule; poly: (n, 2) array of vertices (not closed).  Vectorised over R, Z."""
+    R = np.asarray(R, float)
+    Z = np.asarray(Z, float)
+    inside = np.zeros(R.shape, bool)
+    n = len(poly)
+    for k in range(n):
+        x1, y1 = poly[k]
+        x2, y2 = poly[(k + 1) % n]
+        if y1 == y2:
+            continue
+        cond = (y1 > Z) != (y2 > Z)
+        with np.errstate(invalid="ignore", divide="ignore"):
+            xint = x1 + (Z - y1) * (x2 - x1) / (y2 - y1)
+        inside ^= cond & (R < xint)
+    return inside
+
+
+def poly_distance(poly, R, Z):
+    """distance from (R, Z) to the boundary of the polygon.  Vectorised."""
+    R = np.asarray(R, float)
+    Z = np.asarray(Z, float)
+    best = np.full(R.shape, np.inf)
+    n = len(poly)
+    for k in range(n):
+        a = np.asarray(poly[k], float)
+        b = np.asarray(poly[(k + 1) % n], float)
+        ab = b - a
+        L2 = float(ab @ ab)
+        if L2 == 0.0:
+            d = np.hypot(R - a[0], Z - a[1])
+        else:
+            t = np.clip(((R - a[0]) * ab[0] + (Z - a[1]) * ab[1]) / L2, 0.0, 1.0)
+            d = np.hypot(R - (a[0] + t * ab[0]), Z - (a[1] + t * ab[1]))
+        best = np.minimum(best, d)
+    return best
+
+
+def chord_outside_fraction(poly, p1, p2):
+    """fraction of the length of the straight chord p1 -> p2 that lies outside the polygon"""
+    p1 = np.asarray(p1, float)
+    p2 = np.asarray(p2, float)
+    d = p2 - p1
+    L = float(np.hypot(*d))
+    if not np.isfinite(L) or L == 0.0:
+        return np.nan
+    ts = [0.0, 1.0]
+    n = len(poly)
+    for k in range(n):
+        a = np.asarray(poly[k], float)
+        b = np.asarray(poly[(k + 1) % n], float)
+        e = b - a
+        den = d[0] * e[1] - d[1] * e[0]
+        if den == 0.0:
+            continue
+        t = ((a[0] - p1[0]) * e[1] - (a[1] - p1[1]) * e[0]) / den
+        u = ((a[0] - p1[0]) * d[1] - (a[1] - p1[1]) * d[0]) / den
+        if 0.0 < t < 1.0 and 0.0 <= u <= 1.0:
+            ts.append(float(t))
+    ts = sorted(set(ts))
+    out = 0.0
+    for t0, t1 in zip(ts[:-1], ts[1:]):
+        m = p1 + 0.5 * (t0 + t1) * d
+        if not bool(poly_inside(poly, m[0], m[1])):
+            out += t1 - t0
+    return out
